@@ -280,6 +280,7 @@ func runC10(c *Ctx, pr *PropertyRun) {
 	}
 
 	propSetTables(c, pr, "C10", []string{pkgCaldav, pkgCarddav})
+	urlParseRule(c, pr, "C10", nil)
 	c10Multiget(c, pr)
 	c10ErrorResponse(c, pr)
 	decodePropTable(c, pr, "C10")
@@ -346,6 +347,67 @@ func c10ErrorResponse(c *Ctx, pr *PropertyRun) {
 	r.Role("decision-table")
 	if res.Runs < 4 {
 		r.Unresolved("the NewErrorResponse table has fewer than 4 rows")
+	}
+	r.RequireRole("decision-table")
+}
+
+// serveErrorTable: ServeError answers with the status of an *HTTPError found
+// anywhere in the error's chain (errors.As semantics), else 500. Every rule
+// that follows a labelled error to ServeError relies on this.
+func serveErrorTable(c *Ctx, pr *PropertyRun, prop string) {
+	p := c.P
+	r := NewRule(prop, prop+".serve-error", "ServeError answers with the status of an *HTTPError found anywhere in the error chain — bare, wrapped once or twice with %w — and 500 for anything else (E2)")
+	r.Exhaustive = true
+	pr.Rules = append(pr.Rules, r)
+	fn := p.MustFunc(r, pkgInternal, "ServeError")
+	if fn == nil {
+		return
+	}
+	shapes := []string{"bare", "wrapped", "wrapped-twice", "other"}
+	spec := DTXSpec{Name: "internal.ServeError", Entry: fn,
+		Setup: func(in *Interp) { in.Models = append(in.Models, httpServerModels) },
+		Args: func(in *Interp) []Val {
+			var err Val
+			switch shapes[in.chooseLabeled("error-shape", shapes)] {
+			case "bare":
+				err = markerErr(in)
+			case "wrapped":
+				err = in.mkErr(&ErrObj{Kind: "wrap", Msg: kStr("context: wrapped"), Wrapped: markerErr(in), Key: "wrapped"})
+			case "wrapped-twice":
+				inner := in.mkErr(&ErrObj{Kind: "wrap", Msg: kStr("context: wrapped"), Wrapped: markerErr(in), Key: "wrapped"})
+				err = in.mkErr(&ErrObj{Kind: "wrap", Msg: kStr("outer"), Wrapped: inner, Key: "wrapped2"})
+			default:
+				err = in.mkErr(&ErrObj{Kind: "new", Msg: kStr("some failure"), Key: "plain"})
+			}
+			return []Val{Opaque{"w", fn.Params[0].Type()}, err}
+		},
+		Observe: func(in *Interp, res Val, pan *panicOutcome) string {
+			if pan != nil {
+				return "panic"
+			}
+			for _, e := range in.Trace {
+				switch e.Name {
+				case "WriteHeader":
+					code, _ := in.concretise(e.Args[0])
+					return fmt.Sprintf("status %d", code)
+				case "http.Error":
+					code, _ := in.concretise(e.Args[0])
+					return fmt.Sprintf("status %d", code)
+				}
+			}
+			return "no status written"
+		},
+		Oracle: func(env *OracleEnv) ([]string, bool) {
+			if shapes[env.Choice("error-shape", len(shapes))] == "other" {
+				return []string{"status 500"}, true
+			}
+			return []string{fmt.Sprintf("status %d", markerStatus)}, true
+		}}
+	res := runDTX(c, spec)
+	reportDTX(c, r, spec, res, "ServeError")
+	r.Role("decision-table")
+	if res.Runs < 4 {
+		r.Unresolved("the ServeError table has fewer than 4 rows")
 	}
 	r.RequireRole("decision-table")
 }
@@ -548,6 +610,8 @@ func runC05(c *Ctx, pr *PropertyRun) {
 	propSetTables(c, pr, "C05", []string{pkgWebdav})
 	c05ReadDir(c, pr, "C05")
 	truncateRule(c, pr, "C05", nil)
+
+	urlParseRule(c, pr, "C05", nil)
 
 	// requests
 	req := NewRule("C05", "C05.requests", "every request URL and Destination header is ResolveHref(name).String(); ResolveHref's table (WHO-MAY-CALL + E2)")
